@@ -250,6 +250,11 @@ func (r *runner) run(ctx context.Context, isStream bool, input any, opts ...Opti
 		if result != nil {
 			return result, nil
 		}
+
+		// the direct successors of START are subject to interrupt-before as well
+		if hitKeys := getHitKey(nextTasks, r.interruptBeforeNodes); len(hitKeys) > 0 {
+			return nil, r.handleInterrupt(ctx, hitKeys, nil, nextTasks, cm.channels, isStream, isSubGraph, checkPointID)
+		}
 	} else {
 		ctx, input = onGraphStart(ctx, input, isStream)
 		haveOnStart = true
